@@ -74,7 +74,24 @@ Inductive case :=
    alive_i: afterwards the reactor still served an honest peer / made progress;
    alloc_i: bytes allocated while handling *)
 | CReactor (reactor kind : N) (inlen : Z) (recv_panic_i stopped_i bg_panic_i stuck_i alive_i : bool)
-           (alloc_i : Z).
+           (alloc_i : Z)
+(* a hostile-but-decodable consensus message at boundary values, delivered through
+   Reactor.Receive to a node whose state machine holds live data at its current height
+   (verif_c17_sm_test.go).  scen: 1 the node's own complete proposal and its prevote, 2 another
+   validator's proposal with an incomplete part set, 3 no proposal yet.
+   height, round: of the node; ptotal, phave: Total of its live part set (-1: none) and which
+   parts it holds, read before the message; nvals: validators.
+   m: the message; genuine: (block part) bytes and proof are those of the live part set's part at
+   that index; sent_i: the message was handed to Receive (the sender was still connected).
+   recv_panic_i: Receive panicked; stopped_i: the sender was stopped; bg_panic_i: one of the
+   sender's gossip routines panicked; stuck_i: Receive did not return; halted_i: the consensus
+   receiveRoutine exited (cs.done closed: CONSENSUS FAILURE); probe_ok_i: an honest prevote sent
+   afterwards by another peer was recorded by the state machine;
+   pcount_before_i / pcount_after_i: parts held by the live part set (-1: none) *)
+| CStateM (scen : N) (height round : Z) (ptotal : Z) (phave : list bool) (nvals : Z)
+          (m : cmsg) (genuine : bool) (sent_i : bool) (inlen : Z)
+          (recv_panic_i stopped_i bg_panic_i stuck_i halted_i probe_ok_i : bool)
+          (pcount_before_i pcount_after_i : Z) (alloc_i : Z).
 
 (* ------------------------------------------------------------------ helpers *)
 
@@ -266,4 +283,20 @@ Definition check (c : case) : verdict :=
       viol (negb bg_panic_i) 20;
       viol (negb stuck_i && alive_i) 21;
       viol (alloc_i <=? alloc_limit) 10 ]
+  | CStateM scen height round ptotal phave nvals m genuine sent_i inlen
+            recv_panic_i stopped_i bg_panic_i stuck_i halted_i probe_ok_i pcb_i pca_i alloc_i =>
+    let st := {| sm_height := height;
+                 sm_parts := if ptotal <? 0 then None else Some {| pt_total := ptotal; pt_have := phave |};
+                 sm_nvals := nvals |} in
+    let is_part := match m with MBlockPart _ _ _ _ _ => true | _ => false end in
+    let added := sent_i && validate_basic m && sm_part_added st m genuine in
+    first_of [
+      viol (negb halted_i) 22;
+      viol (negb bg_panic_i) 20;
+      viol (negb stuck_i && (halted_i || probe_ok_i)) 21;
+      viol (alloc_i <=? alloc_limit) 10;
+      (* a message the decoder/ValidateBasic must refuse costs the sender its connection *)
+      mism (negb sent_i || validate_basic m || stopped_i) 24;
+      (* the live part set gains exactly the part the model says AddPart accepts *)
+      mism (negb is_part || (pca_i =? pcb_i + (if added then 1 else 0))) 25 ]
   end.
